@@ -14,7 +14,16 @@ def unit_dir(unit):
     return os.path.join(SPECS, unit)
 
 def load_unit(unit):
-    return json.load(open(os.path.join(unit_dir(unit), "unit.json")))
+    u = json.load(open(os.path.join(unit_dir(unit), "unit.json")))
+    # a unit is composed of parts (specs/parts/<p>.json + <p>.rs) so that annotated code is shared between units
+    for p in u.get("parts", []):
+        pj = json.load(open(os.path.join(SPECS, "parts", p + ".json")))
+        u.setdefault("sources", []).extend(pj.get("sources", []))
+        u.setdefault("paths", {}).update(pj.get("paths", {}))
+        u.setdefault("fn_tags", {}).update(pj.get("fn_tags", {}))
+        for k in ("assumptions", "unverified_parts", "bounded"):
+            u.setdefault(k, []).extend(pj.get(k, []))
+    return u
 
 def extraction(unit, repo):
     """returns (tokens B, pieces, rewrite log)"""
